@@ -3,6 +3,7 @@ package main
 // C15 — key spaces (R15b, R15c), mangling (R15d), key validation (R15e).
 
 import (
+	"go/token"
 	"sort"
 	"go/types"
 	"fmt"
@@ -683,18 +684,75 @@ func keyspaceRules(c *Ctx) {
 		if fi == nil {
 			continue
 		}
+		// a rejection `len(<hash parameter>) != 64` (an if or a case of a tag-less switch whose body
+		// returns) that comes before the first use of the hash as a string (slicing, key building)
 		ok := false
-		for _, st := range fi.Decl.Body.List {
-			if is, k := st.(*ast.IfStmt); k && strings.ReplaceAll(exprStr(is.Cond), " ", "") == "len(hash)!=sha256HashStrSize" {
-				if _, isRet := is.Body.List[len(is.Body.List)-1].(*ast.ReturnStmt); isRet {
-					ok = true
+		finfo := fi.Pkg.TypesInfo
+		var hashParam types.Object
+		for i := 0; ; i++ {
+			po := paramObj(fi, i)
+			if po == nil {
+				break
+			}
+			if po.Type().String() == "string" && hashParam == nil {
+				hashParam = po // the interface fixes the order (ctx, kind, hash, ...): the first string
+			}
+		}
+		isLenTest := func(e ast.Expr) bool {
+			be, k := ast.Unparen(e).(*ast.BinaryExpr)
+			if !k || be.Op != token.NEQ {
+				return false
+			}
+			l, r := be.X, be.Y
+			if _, isC := constInt(finfo, l); isC {
+				l, r = r, l
+			}
+			kv, isC := constInt(finfo, r)
+			call, isCall := ast.Unparen(l).(*ast.CallExpr)
+			return isC && kv == 64 && isCall && exprStr(call.Fun) == "len" && len(call.Args) == 1 && hashParam != nil && identObj(finfo, call.Args[0]) == hashParam
+		}
+		endsInReturn := func(list []ast.Stmt) bool {
+			if len(list) == 0 {
+				return false
+			}
+			_, isRet := list[len(list)-1].(*ast.ReturnStmt)
+			return isRet
+		}
+		var testPos token.Pos
+		ast.Inspect(fi.Decl.Body, func(n ast.Node) bool {
+			switch n := n.(type) {
+			case *ast.IfStmt:
+				if isLenTest(n.Cond) && endsInReturn(n.Body.List) && testPos == 0 {
+					testPos = n.Pos()
+				}
+			case *ast.CaseClause:
+				for _, e := range n.List {
+					if isLenTest(e) && endsInReturn(n.Body) && testPos == 0 {
+						testPos = n.Pos()
+					}
 				}
 			}
-			if _, isDefer := st.(*ast.DeferStmt); !isDefer {
-				if _, isIf := st.(*ast.IfStmt); !isIf {
-					break
+			return true
+		})
+		if testPos != 0 {
+			ok = true
+			// no slicing of the hash and no key built from it before the test
+			ast.Inspect(fi.Decl.Body, func(n ast.Node) bool {
+				if n == nil || n.Pos() >= testPos {
+					return true
 				}
-			}
+				switch n := n.(type) {
+				case *ast.SliceExpr:
+					if identObj(finfo, n.X) == hashParam {
+						ok = false
+					}
+				case *ast.CallExpr:
+					if k := calleeKey(finfo, n); k == "cache.LookupKey" || strings.HasSuffix(k, ".FileLocationBase") || strings.HasSuffix(k, ".FileLocation") {
+						ok = false
+					}
+				}
+				return true
+			})
 		}
 		R.Check(ok, "R15e", c.Cfg+key+":hash-length", c.P.Pos(fi.Decl.Pos()), key+" rejects a hash whose length is not 64 before anything else (hash[:2] cannot panic, the key cannot be shorter than its directory level)", "the leading len(hash) != sha256HashStrSize rejection was not found")
 	}
